@@ -1,7 +1,24 @@
 #!/usr/bin/env python3
-"""check.py -- entry point registered in MANIFEST.json (see DESIGN.md section 9)."""
-import sys, os
+"""check.py -- entry point registered in MANIFEST.json (see DESIGN.md section 9).
+
+Exit codes: 0 held, 1 violation (with a VIOLATION line), 2 undecided, 3 checker error.  A crash of the
+checker itself is a checker error, never a violation."""
+import os
+import sys
+import traceback
+
 sys.path.insert(0, os.path.dirname(os.path.abspath(__file__)))
-from pyvc.main import main
+
 if __name__ == '__main__':
-    sys.exit(main(sys.argv[1:]))
+    try:
+        from pyvc.main import main
+        rc = main(sys.argv[1:])
+    except SystemExit as e:
+        rc = e.code if isinstance(e.code, int) else 3
+        if rc == 1:
+            rc = 3
+    except BaseException:
+        traceback.print_exc()
+        print('CHECKER-ERROR the checker itself failed (traceback above); this is not a verdict about pyikev2')
+        rc = 3
+    sys.exit(rc)
